@@ -537,6 +537,8 @@ def outputs_edits(outs):
         if ot == 'execute_result':
             no = cp(o); no['execution_count'] = (o['execution_count'] or 0) + 10
             out.append(('oec%d' % q, ('details', 'outputs'), outs[:q] + [no] + outs[q + 1:]))
+            no = cp(o); no['execution_count'] = (o['execution_count'] or 0) + 20       # a second value: both sides re-running gives two different counts
+            out.append(('oec%d:b' % q, ('details', 'outputs'), outs[:q] + [no] + outs[q + 1:]))
         if ot == 'error':
             no = cp(o); no['evalue'] = 'another value'
             out.append(('err%d:evalue' % q, O, outs[:q] + [no] + outs[q + 1:]))
@@ -600,7 +602,7 @@ def output_runs(seed, cell, maxlen, names=RUN_OUTPUTS):
 
 FOCUS = {
     'outputs': ('out@0:stream0:append', 'out@0:stream0:first', 'out@0:data1:plain', 'out@0:data1:png', 'out@0:ometa1:set', 'out@0:ometa1:width',
-                'out@0:oec1', 'out@0:append:Oerr', 'out@0:delete0', 'ec@0:7'),
+                'out@0:oec1', 'out@0:oec1:b', 'out@0:append:Oerr', 'out@0:delete0', 'ec@0:7'),
     'source': ('src@0:repl0:a', 'src@0:repl0:b', 'src@0:repl2:a', 'src@0:repl2:b', 'src@0:del1', 'src@0:ins1', 'src@0:tweak1', 'src@0:append-unterminated',
                'src@0:terminate'),
     'meta': ('cellmeta@2:tags+extra', 'cellmeta@2:tags+other', 'cellmeta@2:collapsed-flip', 'cellmeta@2:custom=a1', 'cellmeta@2:custom=a2', 'cellmeta@2:level-2',
@@ -712,3 +714,121 @@ def plain(x):
     if isinstance(x, (list, tuple)):
         return [plain(v) for v in x]
     return x
+
+
+# --------------------------------------------------------------------------------------------
+# threshold family: payload sizes around every size cut-off visible in the differ (nbdime/diffing/notebooks.py:
+# shortlen 10 in compare_text_approximate, min_len 64 in _is_base64, STREAM_MAX_COMPARE_LENGTH 1000,
+# TEXT_MIMEDATA_MAX_COMPARE_LENGTH 10000).  One seed per size n in {T-1, T, T+1}; every edit below is applied to it.
+# --------------------------------------------------------------------------------------------
+
+THRESHOLDS = (10, 64, 1000, 10000)
+_B64 = 'ABCDEFGHIJKLMNOPQRSTUVWXYZabcdefghijklmnopqrstuvwxyz0123456789+/'
+
+
+def _thr_text(n, v=0):
+    if v >= 5:      # a wholesale replacement: dissimilar already by character counts (difflib's ratio() is quadratic on similar texts)
+        return ''.join('ENTRY_%04X|QQQQ|ZZZZ|WWWW;\n' % (i * 3 + v) for i in range(n // 20 + 2))[:n]
+    s = ''.join('row %04d: value=%d status=ok\n' % (i, (i * 7 + v) % 1000) for i in range(n // 20 + 2))
+    return s[:n]
+
+
+def _thr_html(n, v=0):
+    if v >= 5:
+        return ('<DIV>\n' + ''.join('<P>PARAGRAPH_%04X_QQQQ_ZZZZ</P>\n' % (i * 3 + v) for i in range(n // 20 + 2)))[:n]
+    s = '<table>\n' + ''.join('<tr><td>%d</td><td>%d</td></tr>\n' % (i, (i * 13 + v) % 997) for i in range(n // 20 + 2))
+    return s[:n]
+
+
+def _thr_b64(n, v=0):
+    # valid base64 has a length that is a multiple of 4: 63 -> 60, 65 -> 68, 9999 -> 9996, 10001 -> 10004
+    n4 = n - n % 4 + (4 if n % 4 == 1 and n > 64 else 0)
+    return ''.join(_B64[(i * 7 + i // 64 + v) % 64] for i in range(n4))
+
+
+def threshold_sizes(tier='quick'):
+    return [t + d for t in THRESHOLDS for d in (-1, 0, 1)]
+
+
+def seed_threshold(n):
+    cells = [
+        code_cell("show()\n", outputs=[
+            stream(_thr_text(n)),
+            exec_result({'text/plain': _thr_text(n, 1), 'text/html': _thr_html(n)}, ec=1),
+            display({'image/png': _thr_b64(n), 'text/plain': '<Figure size 640x480 with 1 Axes>'}),
+        ], ec=1, id='t0'),
+        md_cell("![big](attachment:big.png)\n", attachments={'big.png': {'image/png': _thr_b64(n, 3)}}, id='t1'),
+    ]
+    return notebook(cells, 5, {})
+
+
+def _chg(s, pos, alphabet=None):
+    """s with the character at pos replaced by another one (never a line break)."""
+    c = s[pos]
+    pool = alphabet or 'xyz'
+    r = next(ch for ch in pool if ch != c)
+    if c == '\n':
+        return s            # keep the line structure: callers pick another position
+    return s[:pos] + r + s[pos + 1:]
+
+
+def threshold_family(n):
+    """(seed, [(label, tags, nb)]): every single edit of the threshold alphabet applied to the size-n seed."""
+    seed = seed_threshold(n)
+    out = []
+
+    def emit(label, cats, fn, multi=None, cell=0):
+        nb = cp(seed)
+        fn(nb)
+        if canon(nb) == canon(seed):
+            return
+        kw = {'multi': multi} if multi else {}
+        out.append(('thr%d:%s' % (n, label), _tags(cell=cell, cats=cats, kind='threshold', **kw), nb))
+
+    O = ('outputs',)
+    outs = lambda nb: nb['cells'][0]['outputs']
+    emit('oec1', ('details', 'outputs'), lambda nb: outs(nb)[1].__setitem__('execution_count', 11))
+    emit('ometa1', ('metadata', 'outputs'), lambda nb: outs(nb)[1].__setitem__('metadata', {'isolated': True}))
+    emit('ometa2', ('metadata', 'outputs'), lambda nb: outs(nb)[2].__setitem__('metadata', {'image/png': {'width': 100}}))
+    emit('ec', ('details',), lambda nb: nb['cells'][0].__setitem__('execution_count', 11))
+
+    def rerun(nb):
+        nb['cells'][0]['execution_count'] = 11
+        outs(nb)[1]['execution_count'] = 11
+    emit('rerun-same', (), rerun, multi=(('details',), ('details', 'outputs')))
+
+    def both(nb):
+        outs(nb)[1]['execution_count'] = 11
+        outs(nb)[1]['metadata'] = {'isolated': True}
+    emit('oec1+ometa1', (), both, multi=(('details', 'outputs'), ('metadata', 'outputs')))
+
+    targets = (
+        ('stream', lambda nb: (outs(nb)[0], 'text'), _thr_text, None),
+        ('plain', lambda nb: (outs(nb)[1]['data'], 'text/plain'), lambda m, v=0: _thr_text(m, 1 + v), None),
+        ('html', lambda nb: (outs(nb)[1]['data'], 'text/html'), _thr_html, None),
+        ('png', lambda nb: (outs(nb)[2]['data'], 'image/png'), _thr_b64, _B64),
+    )
+    for name, loc, gen, alpha in targets:
+        def at(nb, f, loc=loc):
+            d, k = loc(nb)
+            d[k] = f(d[k])
+        L = len(loc(seed)[0][loc(seed)[1]])
+        emit('%s:first' % name, O, lambda nb, at=at, alpha=alpha: at(nb, lambda s: _chg(s, 0, alpha)))
+        emit('%s:mid' % name, O, lambda nb, at=at, alpha=alpha, L=L: at(nb, lambda s: _chg(s, L // 2 if s[L // 2] != '\n' else L // 2 - 1, alpha)))
+        emit('%s:last' % name, O, lambda nb, at=at, alpha=alpha, L=L: at(nb, lambda s: _chg(s, L - 1 if s[L - 1] != '\n' else L - 2, alpha)))
+        if alpha is None:
+            emit('%s:grow1' % name, O, lambda nb, at=at: at(nb, lambda s: s + 'q'))
+            emit('%s:shrink1' % name, O, lambda nb, at=at: at(nb, lambda s: s[:-1]))
+            emit('%s:grow-line' % name, O, lambda nb, at=at: at(nb, lambda s: s + '\nappended line\n'))
+        else:
+            emit('%s:grow4' % name, O, lambda nb, at=at: at(nb, lambda s: s + 'QUJD'))
+            emit('%s:shrink4' % name, O, lambda nb, at=at: at(nb, lambda s: s[:-4]))
+        emit('%s:replace' % name, O, lambda nb, at=at, gen=gen, L=L: at(nb, lambda s: gen(L, 5)))
+    emit('att:mid', ('attachments',), lambda nb: nb['cells'][1]['attachments']['big.png'].__setitem__(
+        'image/png', _chg(nb['cells'][1]['attachments']['big.png']['image/png'], 5, _B64)), cell=1)
+    emit('att:replace', ('attachments',), lambda nb: nb['cells'][1]['attachments']['big.png'].__setitem__('image/png', _thr_b64(n, 9)), cell=1)
+    emit('out:delete1', O, lambda nb: outs(nb).pop(1))
+    emit('out:swap01', O, lambda nb: outs(nb).insert(0, outs(nb).pop(1)))
+    emit('out:dup0', O, lambda nb: outs(nb).append(cp(outs(nb)[0])))
+    emit('src', ('sources',), lambda nb: nb['cells'][0].__setitem__('source', "show(1)\n"))
+    return seed, out
